@@ -103,7 +103,7 @@ func (m *dsim) violate(oracle, site, format string, args ...any) {
 	m.s.Violate(oracle, "C08|"+oracle+"|"+site, "%s", msg)
 }
 
-var oddDirs = []string{"", "pkg", "pkg/v1", "with space", "ünï/cødé", "a.b/c-d_e"}
+var oddDirs = []string{"", "pkg", "pkg/v1", "with space", "ünï/cødé", "a.b/c-d_e", "two  spaces", " lead", "trail ", "tab\there", "shake256:ab  x"}
 
 func (m *dsim) drawModules() {
 	n := 1 + m.tp.Draw("d.nmods", 3)
